@@ -50,6 +50,17 @@ def attr_plan(cls):
             continue
         mode = rng.choice(['kw', 'dot', 'change', 'remove', 'kw'])
         plan.append((a.name.replace('-', '_'), mode, rng.choice(g), rng.choice(g)))
+    # the schema attribute called `name` (lyric, bookmark, miscellaneous-field, ...): a constructor keyword is the only way to give it
+    # (dot assignment is captured by the Python property: recorded finding of C04), and a copy has to carry it all the same
+    try:
+        named = [a for a in cls.TYPE.get_xsd_attributes() if a.name == 'name']
+    except Exception:
+        named = []
+    for a in named:
+        g = [v for v in good_values(a) if isinstance(v, str) and v.strip()]
+        if g:
+            v = rng.choice(g)
+            plan.append(('name', 'kw', v, v))
     return plan
 
 
